@@ -15,4 +15,9 @@ for t in sorted(set(R.UNIT_TOOL.values())):
         print("built replay tool", t)
     except Exception as e:
         print("WARNING: replay tool", t, "did not build:", str(e)[-400:])
+try:
+    import e2e
+    print("built CLI", e2e.build_cli())
+except Exception as e:
+    print("WARNING: CLI did not build:", str(e)[-400:])
 PY
